@@ -278,6 +278,10 @@ def run(P: Program, R: Report, tier: str) -> None:
         if isinstance(t, ast.Tuple) and t.elts:
             R.check(f"self.get_time({node_p})" in norm(t.elts[0]), "R07.7", gp, r, "get_pixels prepends the node's time index",
                     norm(t.elts[0])[:80], via="provenance")
+    # ---- R07.12 a query of the data model never answers from a memo that some writer forgets to drop
+    from .memo import no_stale_memo
+
+    no_stale_memo(P, R, "R07.12")
 
 
 def release_before_claim(R: Report, f, results, rule: str) -> None:
